@@ -202,6 +202,13 @@ def gen_case(rng, big=False):
         m = rng.choice([0x2, 0x100, 0xfff, 0x2 | 0x200])
         if rng.random() < 0.25:
             m |= IN_ONESHOT
+        # request masks may carry any bit the kernel accepts, including ones that only have a meaning in EVENT masks (IN_IGNORED,
+        # IN_ISDIR, IN_Q_OVERFLOW, IN_UNMOUNT) and the other add_watch flags: none of them makes a watch one-shot
+        k = rng.random()
+        if k < 0.15:
+            m |= IN_IGNORED
+        elif k < 0.25:
+            m |= rng.choice([0x40000000, 0x4000, 0x2000, 0x01000000, 0x02000000, 0x20000000])
         return m
 
     used = {}
